@@ -57,6 +57,11 @@ def conv(v, dtype):
             return True, float(v)
         if dtype in ("string", "text"):
             return True, str(v)
+        if dtype.endswith("-tuple"):
+            n = int(dtype.split("-")[0])
+            if isinstance(v, (list, tuple)) and len(v) == n:
+                return True, [str(e) for e in v]
+            return False, None
         if dtype == "date":
             import datetime as _dt
             if isinstance(v, _dt.datetime):
@@ -453,6 +458,15 @@ def planted_cases():
                 dn["properties"].append(P("lookalike", ddt, dvals))
                 sn["properties"].append(P("lookalike", sdt, svals))
                 cases.append({"dest": enc(d), "src": enc(s), "strict": strict, "planted": ["values-of-lookalike-type", tag, depth, "prop"]})
+        # n-tuple Properties: same arity merges, another arity cannot
+        for sdt, svals, tag in (("2-tuple", [["3", "4"], ["1", "2"]], "2-tuple<-2-tuple"), ("2-tuple", [["1", "2"]], "2-tuple<-equal"),
+                                ("3-tuple", [["3", "4", "5"]], "2-tuple<-3-tuple"), ("2-tuple", [["5", ""]], "2-tuple<-empty-element")):
+            for depth in (0, 1):
+                d, s = template(), template()
+                dn, sn = (d, s) if depth == 0 else (d["sections"][0], s["sections"][0])
+                dn["properties"].append(P("tup", "2-tuple", [["1", "2"]]))
+                sn["properties"].append(P("tup", sdt, svals))
+                cases.append({"dest": enc(d), "src": enc(s), "strict": strict, "planted": ["tuple-properties", tag, depth, "prop"]})
         # numbers (zeros in particular) merged into a text Property are converted to their text
         for sdt, svals, tag in (("int", [0, 5], "string<-int"), ("float", [0.0, 2.5], "string<-float"), ("int", [0], "string<-zero-only")):
             for depth in (0, 1):
